@@ -597,25 +597,29 @@ def run(tier):
         combos.append((k,))                        # a single request must also leave the instance usable
     combos += [("step", "steps", "stream"), ("steps", "step", "step"), ("stream", "step", "step")]
     if tier == "thorough":
-        combos += [("steps", "steps", "step"), ("stream", "stream", "step"), ("steps", "stream", "steps"), ("step", "step", "step")]
+        combos += [k for k in itertools.product(KINDS, repeat=3) if k not in combos]
     if "save" in hs:
         # the state save writes the live lock flag: it is part of the protocol, also as a request of its own
         combos += [("steps", "save", "step"), ("stream", "save", "step"), ("steps", "save", "steps")]
     for kinds in combos:
         nst = tuple(0 if k == "save" else (1 if k == "step" else 2) for k in kinds)
-        for faults in (False, True):
-            res, sc = bmc(hs, kinds, nst, want_violation=True, faults=faults)
-            queries += 1
-            if len(samples) < 8:
-                samples.append({"requests": list(kinds), "steps": list(nst), "faults_allowed": faults, "verdict": res,
-                                "violates": sc["violates"] if sc else []})
-            if res == "unsat":
-                unsat += 1
-            elif res == "sat":
-                rep.candidate(signature(sc), sc, "requests %s (faults %s): schedule %s violates %s" % (list(kinds), sc["faults"], sc["order"], sc["violates"]))
-                break                               # the fault-free schedule is the more basic finding
-            else:
-                rep.inconcl("BMC %s faults=%s: %s" % (kinds, faults, res))
+        variants = [nst]
+        if tier == "thorough" and len(kinds) == 2 and any(k != "step" for k in kinds):
+            variants.append(tuple(0 if k == "save" else (1 if k == "step" else 3) for k in kinds))    # 3-step multi-step requests
+        for nst in variants:
+            for faults in (False, True):
+                res, sc = bmc(hs, kinds, nst, want_violation=True, faults=faults)
+                queries += 1
+                if len(samples) < 8:
+                    samples.append({"requests": list(kinds), "steps": list(nst), "faults_allowed": faults, "verdict": res,
+                                    "violates": sc["violates"] if sc else []})
+                if res == "unsat":
+                    unsat += 1
+                elif res == "sat":
+                    rep.candidate(signature(sc), sc, "requests %s (faults %s): schedule %s violates %s" % (list(kinds), sc["faults"], sc["order"], sc["violates"]))
+                    break                               # the fault-free schedule is the more basic finding
+                else:
+                    rep.inconcl("BMC %s faults=%s: %s" % (kinds, faults, res))
     # witness: the encoding admits a good run
     w, _ = bmc(hs, ("step", "step"), (1, 1), want_violation=False, faults=False)
     queries += 1
